@@ -92,6 +92,34 @@ def _removes_pair(prog, g, list_f, map_f, seen):
     return False
 
 
+def _is_tail_iterator(a, list_f):
+    """std::prev(list.end()), --list.end(), or a local iterator initialised from list.end() and then decremented"""
+    a0 = a.strip_all()
+    while a0.k in ("CXXConstructExpr", "MaterializeTemporaryExpr") and len(a0.c) == 1:
+        a0 = a0.c[0].strip_all()
+
+    def is_end(e):
+        e = e.strip_all()
+        while e.k in ("CXXConstructExpr", "MaterializeTemporaryExpr") and len(e.c) == 1:
+            e = e.c[0].strip_all()
+        return e.k == "CXXMemberCallExpr" and _short((e.callee or {}).get("qn")) in ("end", "cend") and e.call_object() is not None \
+            and e.call_object().strip_all().k == "MemberExpr" and e.call_object().strip_all().decl.get("n") in list_f
+    if a0.k == "CallExpr" and (a0.callee or {}).get("qn") == "std::prev" and len(a0.call_args()) == 1 and is_end(a0.call_args()[0]):
+        return True
+    if a0.k in ("UnaryOperator", "CXXOperatorCallExpr") and a0.op == "--" and a0.c and is_end(a0.c[-1]):
+        return True
+    if a0.k == "DeclRefExpr" and a0.decl and a0.decl.get("k") == "local":
+        fn = a0.fn
+        defs = [v for v in fn.walk() if v.k == "VarDecl" and v.decl and v.decl.get("id") == a0.decl["id"] and v.c]
+        dec = any(x.k in ("UnaryOperator", "CXXOperatorCallExpr") and x.op == "--" and x.c and x.c[-1].strip_all().k == "DeclRefExpr"
+                  and x.c[-1].strip_all().decl.get("id") == a0.decl["id"] for x in fn.walk())
+        if len(defs) == 1 and is_end(defs[0].c[0]) and dec:
+            return True
+        if len(defs) == 1:
+            return _is_tail_iterator(defs[0].c[0], list_f)
+    return False
+
+
 def _holds_plans(prog, ctype, fixture=False):
     """is this LRUCache instantiation one of the transform-plan caches (its value type names a class of the plan family)?
     An LRU cache of something else is not the subject of C10."""
@@ -312,7 +340,25 @@ def rule_K1(prog, fixture=False):
             key = "K1:recency:%s::%s" % (cn, g.qn.rsplit("::", 1)[-1])
             where = "%s:%d" % (prog.rel(g.file), g.line)
             refresh = _refreshes(prog, g, list_f, set())
-            if refresh:
+            wide = None
+            for n in g.walk():
+                if n.k == "CXXMemberCallExpr" and n.callee and (n.callee.get("qn") or "").rsplit("::", 1)[-1] == "splice":
+                    o = n.call_object()
+                    o0 = o.strip_all() if o is not None else None
+                    if o0 is not None and o0.k == "MemberExpr" and o0.decl and o0.decl.get("n") in list_f:
+                        args = [a for a in n.call_args() if a.k != "CXXDefaultArgExpr"]
+                        if len(args) == 4:
+                            last = args[3].strip_all()
+                            one_past = last.k == "CallExpr" and (last.callee or {}).get("qn") in ("std::next",) and len(last.call_args()) == 1
+                            if not one_past:
+                                wide = n
+                        elif len(args) == 2:
+                            wide = n          # the whole other list
+            if refresh and wide is not None:
+                res.add(key, VIOLATED, "%s:%d" % (prog.rel(g.file), wide.line), g.short,
+                        "%s moves a *range* of entries to the front: a hit must move exactly the entry that was found, otherwise "
+                        "older entries jump ahead of more recently used ones and the wrong plan is evicted next" % wide.text()[:90])
+            elif refresh:
                 res.add(key, DISCHARGED, where, g.short, "a lookup that returns a stored value moves the entry to the front of the recency list")
             else:
                 res.add(key, VIOLATED, where, g.short,
@@ -507,7 +553,7 @@ def rule_K3(prog, fixture=False):
     for s in sorted(caches, key=lambda s: (s["file"], s["line"])):
         key = "K3:capacity:%s@%s" % (s["name"], s.get("func", ""))
         where = "%s:%d" % (prog.rel(s["file"]), s["line"])
-        vals = s.get("init_args_int") or []
+        vals = (s.get("init_args_int") or [])[:1]       # the capacity is the first constructor argument; further ones are policy
         if len(vals) == 1 and vals[0] is not None and (want is None or vals[0] == want):
             res.add(key, DISCHARGED, where, "%s in %s" % (s["name"], s.get("func")), "constructed with capacity %s%s" % (
                 vals[0], "" if want is None else " = configured DSPLIB_FFT_CACHE_SIZE"))
@@ -536,6 +582,7 @@ def rule_K3(prog, fixture=False):
         where = "%s:%d" % (prog.rel(f.file), f.line)
         ok = None
         stale = None
+        tail_problem = None
         for n in f.walk():
             if n.k not in ("IfStmt", "WhileStmt"):
                 continue          # if (size > max) evict;   while (size > max) evict;
@@ -575,6 +622,26 @@ def rule_K3(prog, fixture=False):
                             evicts = True
             if not evicts:
                 continue
+            # the evicted entry is the tail of the recency list
+            not_tail = None
+            region = [then] if then is not None else []
+            for x in (then.walk() if then is not None else []):
+                if x.k == "CXXMemberCallExpr" and x.callee and x.callee.get("cls") == f.cls:
+                    h = prog.functions.get(x.callee["usr"])
+                    if h is not None and h.body() is not None:
+                        region.append(h.body())
+            for reg in region:
+                for x in reg.walk():
+                    if x.k == "CXXMemberCallExpr" and x.callee and x.call_object() is not None:
+                        o0 = x.call_object().strip_all()
+                        nm = _short(x.callee.get("qn"))
+                        if o0.k == "MemberExpr" and o0.decl and o0.decl.get("n") in list_f and nm in ("erase", "pop_front", "remove", "remove_if"):
+                            if nm == "erase" and x.call_args() and _is_tail_iterator(x.call_args()[0], list_f):
+                                continue
+                            not_tail = x
+            if not_tail is not None:
+                tail_problem = (n, not_tail)
+                continue
             if flag is not None:
                 f.blocks
                 w = f.stale_flag(flag, n.role("cond"))
@@ -586,6 +653,11 @@ def rule_K3(prog, fixture=False):
             c = ok.role("cond")
             res.add(key, DISCHARGED, "%s:%d" % (prog.rel(f.file), ok.line), "%s eviction" % f.short,
                     "evicts a list/map pair when %s" % c.text(), func=f.name)
+        elif tail_problem is not None:
+            n, x = tail_problem
+            res.add(key, VIOLATED, "%s:%d" % (prog.rel(x.fn.file), x.line), "%s eviction" % f.short,
+                    "%s removes an entry of the recency list that is not its tail (pop_back / erase of the last element): the "
+                    "evicted plan is not the least recently used one" % x.text()[:80], func=f.name)
         elif stale is not None:
             n, flag, w = stale
             res.add(key, VIOLATED, "%s:%d" % (prog.rel(f.file), n.line), "%s eviction" % f.short,
